@@ -137,10 +137,24 @@ def _handler_region_is_single_load(cfg, handler: Node) -> bool:
 def _handle_classes(ctx):
     for mod in ctx.pkg.modules.values():
         for info in mod.classes.values():
-            short = f"{mod.short}.{info.name}"
+            short = ctx.pkg.canonical_class(info)
             if "aclose" not in info.methods or "__init__" not in info.methods:
                 continue
             yield short, info
+
+
+def _not_advertised(ctx, short: str, info, pname: str) -> str:
+    """NOT_ADVERTISED lookup; the chain entry is recognised by what the parameter is — the
+    keyword through which the alternate constructor ``from_iterable`` passes its lazily
+    consumed outer iterable — not by its (private) name."""
+    if (short, pname) in NOT_ADVERTISED:
+        return NOT_ADVERTISED[(short, pname)]
+    alt = info.methods.get("from_iterable")
+    if short == "itertools.chain" and alt is not None:
+        for c in own_nodes(alt.node):
+            if isinstance(c, ast.Call) and norm(c.func) in ("cls", info.name) and any(k.arg == pname for k in c.keywords):
+                return NOT_ADVERTISED[("itertools.chain", "_iterables")]
+    return ""
 
 
 def r04_3(ctx) -> None:
@@ -152,8 +166,9 @@ def r04_3(ctx) -> None:
             roles = roles_of_annotation(p.annotation)
             if not ({"ITERABLE", "ITERATOR"} & roles):
                 continue
-            if (short, p.arg) in NOT_ADVERTISED:
-                ctx.ok("R04.3", init, f"`{p.arg}` is not advertised as owned: {NOT_ADVERTISED[(short, p.arg)]}")
+            na = _not_advertised(ctx, short, info, p.arg)
+            if na:
+                ctx.ok("R04.3", init, f"`{p.arg}` is not advertised as owned: {na}")
                 continue
             if short == "itertools._GroupByState":
                 continue  # checked through its owner GroupBy (transfer)
